@@ -169,6 +169,16 @@ def handle (fn : String) : RM (Option (List Float)) := do
     let F2 := outs.foldl (fun a o => SpF.add a o.F2) SpF.zero
     let pe := outs.foldl (fun a o => a + o.pe) 0
     return some (spfl F1 ++ spfl F2 ++ [pe])
+  | "expnPE" =>
+    let d0 ← rF; let d1 ← rF; let d2 ← rF; let cz ← rF; let maxF ← rF; let _mus ← rF; let _muk ← rF
+    let station ← rV3; let XP ← rPose; let X ← rPose; let V ← rVel
+    let (pz, vz) := expStationKin XP X V station
+    let o := expNormal Float.exp d0 d1 d2 cz maxF pz vz
+    return some [o.fzElas, o.fzDamp, o.fz, expPE Float.exp d0 d1 d2 cz maxF pz vz]
+  | "cable" =>
+    let k ← rF; let c ← rF; let L0 ← rF; let L ← rF; let Ld ← rF
+    let o := cableSpring k c L0 L Ld
+    return some [o.f, o.powerLoss, o.pe]
   | "hertz" =>
     let nscene ← rN; let _ ← rList nscene tok
     let nb ← rN; let vtrans ← rF; let signif ← rF
@@ -190,7 +200,7 @@ def handle (fn : String) : RM (Option (List Float)) := do
       let o := hertzContact fsqrt signif vtrans m1 m2 normal origin depth p12 V12.w V12.v R 1
       let cpG := X_GS1.apply o.contactPt
       let fG := X_GS1.R.mulVec o.force
-      let ap := compliantApply cpG fG k1.1 k2.1
+      let ap := compliantApply cpG V3.zero fG k1.1 k2.1
       return (o.valid, v3l cpG ++ v3l fG ++ [o.pe, o.powerLoss], [(b1, ap.1), (b2, ap.2)], o.pe))
     let valid := res.filter (·.1)
     return some (valid.flatMap (·.2.1) ++ totals (nb + 1) (valid.flatMap (·.2.2.1)) ++ [valid.foldl (fun a r => a + r.2.2.2) 0])
